@@ -12,6 +12,7 @@ import (
 	"os/exec"
 	"path/filepath"
 	"strings"
+	"sync"
 )
 
 type WitnessEntry struct {
@@ -31,7 +32,7 @@ func (e *Engine) runProbes(cfg RunConfig) (ran []string, violated []string, file
 		return
 	}
 	for _, w := range idx {
-		if w.Probe != cfg.Prop {
+		if !probeFor(w.Probe, cfg.Prop) {
 			continue
 		}
 		found, bad, rec := e.runWitness(cfg, w.Obligation)
@@ -51,6 +52,16 @@ func (e *Engine) runProbes(cfg RunConfig) (ran []string, violated []string, file
 		}
 	}
 	return
+}
+
+// probeFor: a probe may serve several properties ("C13,C12").
+func probeFor(list, prop string) bool {
+	for _, p := range strings.Split(list, ",") {
+		if strings.TrimSpace(p) == prop {
+			return true
+		}
+	}
+	return false
 }
 
 func (e *Engine) runWitness(cfg RunConfig, name string) (found bool, violated bool, rec map[string]interface{}) {
@@ -75,14 +86,57 @@ func (e *Engine) runWitness(cfg RunConfig, name string) (found bool, violated bo
 			}
 		}
 	}
+	// every candidate scenario is run (results are cached per scenario file for this run);
+	// the first one that the real code violates is the replay
 	for _, w := range cands {
+		v, r := e.runWitnessFile(cfg, w, name)
+		found = true
+		rec = r
+		if v {
+			return true, true, r
+		}
+	}
+	return found, false, rec
+}
+
+type witnessResult struct {
+	once     sync.Once
+	violated bool
+	rec      map[string]interface{}
+}
+
+var witnessMu sync.Mutex
+
+// runWitnessFile: investigations run in parallel; each scenario file is executed once per run.
+func (e *Engine) runWitnessFile(cfg RunConfig, w WitnessEntry, name string) (bool, map[string]interface{}) {
+	witnessMu.Lock()
+	if e.witnessCache == nil {
+		e.witnessCache = map[string]*witnessResult{}
+	}
+	r := e.witnessCache[w.File]
+	if r == nil {
+		r = &witnessResult{}
+		e.witnessCache[w.File] = r
+	}
+	witnessMu.Unlock()
+	r.once.Do(func() { r.violated, r.rec = e.runWitnessFile1(cfg, w, name) })
+	// callers add their own keys to the record
+	cp := map[string]interface{}{}
+	for k, v := range r.rec {
+		cp[k] = v
+	}
+	return r.violated, cp
+}
+
+func (e *Engine) runWitnessFile1(cfg RunConfig, w WitnessEntry, name string) (bool, map[string]interface{}) {
+	{
 		src := filepath.Join("/verif/witness", w.File)
 		dir := filepath.Join(cfg.Work, "replay")
 		os.MkdirAll(dir, 0o755)
 		target := filepath.Join(cfg.Repo, w.PkgDir, "zz_tqv_witness_test.go")
 		ov := map[string]map[string]string{"Replace": {target: src}}
 		ob, _ := json.Marshal(ov)
-		ovFile := filepath.Join(dir, "overlay_w_"+sanitize(name)+".json")
+		ovFile := filepath.Join(dir, "overlay_w_"+sanitize(w.File)+".json")
 		os.WriteFile(ovFile, ob, 0o644)
 		pkg := "./" + w.PkgDir
 		if w.PkgDir == "" {
@@ -95,24 +149,23 @@ func (e *Engine) runWitness(cfg RunConfig, name string) (found bool, violated bo
 		cmd.Stdout = &out
 		cmd.Stderr = &out
 		cmd.Run()
-		rec = map[string]interface{}{"witness_file": src, "kind": "heuristic witness scenario (hand-written from the property text), replayed on the real code"}
+		rec := map[string]interface{}{"witness_file": src, "kind": "heuristic witness scenario (hand-written from the property text), replayed on the real code"}
 		for _, line := range strings.Split(out.String(), "\n") {
 			if strings.HasPrefix(line, "TQV-WITNESS ") {
 				var m map[string]interface{}
 				if json.Unmarshal([]byte(line[len("TQV-WITNESS "):]), &m) == nil {
 					rec["observed"] = m
 					if v, ok := m["violated"].(bool); ok {
-						return true, v, rec
+						return v, rec
 					}
 				}
 			}
 		}
 		if strings.Contains(out.String(), "panic:") && !strings.Contains(out.String(), "test timed out") {
 			rec["observed"] = map[string]interface{}{"panic": tail(out.String(), 1200)}
-			return true, true, rec
+			return true, rec
 		}
 		rec["output"] = tail(out.String(), 1200)
-		return true, false, rec
+		return false, rec
 	}
-	return false, false, nil
 }
